@@ -52,6 +52,15 @@ pub fn run_corpus(
         let mut cfg = CrateCfg::new(env, id, sub);
         cfg.strum_features = plan.strum_features.clone();
         cfg.profile = profile.to_string();
+        // a property whose statement names both profiles (C05, C10) builds everything twice; for the others the
+        // release build (no overflow checks, no debug assertions) takes every fourth program in the quick tier
+        if *profile == "rel" && tier == "quick" && !matches!(id, "C05" | "C10") && items.len() > 8 {
+            cfg.every_nth = 4;
+        }
+        // the phf feature must not depend on strum's default features (`std`): the release build goes without them
+        if *profile == "rel" && id == "C16" {
+            cfg.strum_default_features = false;
+        }
         let mut removed: BTreeSet<String> = BTreeSet::new();
         let mut em;
         let mut iter = 0;
@@ -345,7 +354,10 @@ fn run_check(env: &Env, id: &str, tier: &str, seed: u64) -> i32 {
     }
     out.extra.insert("regression_files_replayed".into(), json!(regress_run));
 
-    if out.violations.is_empty() && out.inconclusive.is_none() {
+    // a replayed finding that is listed as open does not stop the search for others
+    let open_findings = load_findings(env);
+    let unlisted = out.violations.iter().any(|v| !open_findings.iter().any(|f| matches_finding(f, id, v)));
+    if !unlisted && out.inconclusive.is_none() {
         if is_corpus_property(id) && std::env::var("VERIF_FUZZ_ONLY").is_err() {
             for round in 0..props::rounds(id, tier) {
                 let plan = props::plan(id, tier, seed, round);
@@ -353,7 +365,7 @@ fn run_check(env: &Env, id: &str, tier: &str, seed: u64) -> i32 {
                 out.assumptions = plan.assumptions.clone();
                 let items: Vec<Item> = plan.specs.iter().map(|s| Item { spec: s.clone(), module: props::module_for(id, s) }).collect();
                 run_corpus(env, id, "main", &plan, &items, tier, seed, None, &mut out);
-                if out.inconclusive.is_some() || !out.violations.is_empty() {
+                if out.inconclusive.is_some() || out.violations.iter().any(|v| !open_findings.iter().any(|f| matches_finding(f, id, v))) {
                     break;
                 }
             }
@@ -365,7 +377,8 @@ fn run_check(env: &Env, id: &str, tier: &str, seed: u64) -> i32 {
             inproc::run(env, id, tier, seed, &mut out);
         }
         // Engine C: coverage-guided fuzzing, thorough tier only
-        if tier == "thorough" && out.violations.is_empty() && out.inconclusive.is_none() && std::env::var("VERIF_NO_FUZZ").is_err() {
+        let unlisted = out.violations.iter().any(|v| !open_findings.iter().any(|f| matches_finding(f, id, v)));
+        if tier == "thorough" && !unlisted && out.inconclusive.is_none() && std::env::var("VERIF_NO_FUZZ").is_err() {
             match id {
                 "C01" | "C05" | "C12" | "C16" | "C18" => fuzz::run_generated(env, id, seed, &mut out),
                 "C07" => fuzz::run_static(env, id, "fz_case", seed, &mut out),
